@@ -57,6 +57,14 @@ func (r *Report) collect(runs []*funcRun, obls []*Obligation, bindingFailures []
 			}
 			continue
 		}
+		if o.Known != nil {
+			// in-region half of a known finding: reported separately, never counted as an obligation of the proof
+			r.solverT += o.Time
+			if o.Verdict != "unsat" {
+				r.viol = append(r.viol, &violation{obl: o, name: o.Name, known: o.Known, reason: "known finding region: " + o.Verdict})
+			}
+			continue
+		}
 		r.nObl++
 		r.solverT += o.Time
 		if o.Time > r.maxT {
@@ -76,16 +84,13 @@ func (r *Report) collect(runs []*funcRun, obls []*Obligation, bindingFailures []
 		} else {
 			vi.reason = "not discharged: " + o.Model
 		}
-		if o.Known != nil {
-			vi.known = o.Known
-		}
 		r.viol = append(r.viol, vi)
 	}
 }
 
 func lockable(kind string) bool {
 	switch kind {
-	case "post", "panics_iff", "loop.inv", "loop.decreases", "frame", "lemma", "assert":
+	case "post", "panics_iff", "loop.inv", "loop.decreases", "frame", "lemma", "assert", "portable":
 		return true
 	}
 	return false
